@@ -57,6 +57,26 @@ def measure(ctx, n_detached, angles, n_vertex):
         if err > tol:
             ctx.violation('ff-accuracy-detached', 'detached %s pair: form factor %.6g vs exact %.6g (%.2f %% > %.0f %%)' % (kind, v, ref, 100 * err, 100 * tol),
                           {'Pi': Pi, 'ni': ni, 'Pj': Pj, 'nj': nj}, float(v), float(ref))
+    # vertex arrays of INTEGER dtype (whole-metre coordinates): same numbers, same result
+    for k in range(max(2, n_detached // 10)):
+        a, b, h = int(rng.integers(1, 4)), int(rng.integers(1, 4)), int(rng.integers(1, 4))
+        ox = int(rng.integers(-3, 4))
+        if k % 2 == 0:      # facing rectangles
+            Pi = np.array([[ox, 0, 0], [ox + a, 0, 0], [ox + a, b, 0], [ox, b, 0]], dtype=np.int64)
+            Pj = np.array([[ox, 0, h], [ox, b, h], [ox + a, b, h], [ox + a, 0, h]], dtype=np.int64)
+            ni, nj = np.array([0., 0., 1.]), np.array([0., 0., -1.])
+        else:               # perpendicular, sharing an edge
+            Pi = np.array([[ox, 0, 0], [ox + a, 0, 0], [ox + a, b, 0], [ox, b, 0]], dtype=np.int64)
+            Pj = np.array([[ox, 0, 0], [ox, 0, h], [ox + a, 0, h], [ox + a, 0, 0]], dtype=np.int64)
+            ni, nj = np.array([0., 0., 1.]), np.array([0., 1., 0.])
+        Ai = float(a * b)
+        v_int = universal.universal_form_factor(Pi.copy(), ni.copy(), Ai, Pj.copy(), nj.copy())
+        v_flt = universal.universal_form_factor(Pi.astype(float), ni.copy(), Ai, Pj.astype(float), nj.copy())
+        ctx.oracle_evals += 2
+        ctx.count('integer_dtype_pairs')
+        if not (abs(v_int - v_flt) <= 1e-12 * max(abs(v_flt), 1e-300)):
+            ctx.violation('ff-integer-vertex-array', 'the same patch pair gives %.6g with an int64 vertex array and %.6g with float64' % (v_int, v_flt),
+                          {'Pi': Pi, 'ni': ni, 'Pj': Pj, 'nj': nj}, float(v_int), float(v_flt))
     for ang in angles:
         Pi, ni, Pj, nj = geomgen.shared_edge_pair(rng, ang)
         Pi, ni, Pj, nj = geomgen.rigid(rng, Pi, ni, Pj, nj)
